@@ -10,7 +10,8 @@ From Coq Require Import String Ascii ZArith List Bool.
 From Verif Require Import lib.Arith lib.ArithOptZ model.Series model.SeriesOps model.Databox model.Slate model.Csv gen.CsvGen
   proofs.SeriesProofs proofs.SeriesOpsProofs proofs.DataboxProofs proofs.CsvProofs
   gen.Csv4Gen model.Csv4 proofs.Databox4Proofs proofs.Csv4Proofs
-  gen.Csv5Gen model.Csv5 proofs.Csv5Proofs.
+  gen.Csv5Gen model.Csv5 proofs.Csv5Proofs
+  model.Merge6 proofs.Merge6Proofs proofs.Csv6Proofs.
 Import ListNotations.
 Open Scope Z_scope.
 
@@ -326,6 +327,72 @@ Theorem C19_merge_many_examples :
 Proof. exact (conj Merge4Examples.discard_keeps_first Merge4Examples.error_on_duplicate_among_others). Qed.
 Print Assumptions C19_merge_many_examples.
 
+(* ---- round 6: merge with the strategies error / critical over ANY list of databoxes ---- *)
+
+(* error / critical raise iff some key occurs twice among the keys of the target and of the merged databoxes (for every
+   target and every list of databoxes); when no key occurs twice the result is the target followed by all items of the
+   merged databoxes in their order *)
+Theorem C19_merge_error_raises_iff : forall A (db : databox A) others, ND A db ->
+  (d_merge A db others (MReport true) = Err 2%nat <-> ~ NoDup (all_keys A db others)).
+Proof. exact merge_error_raises_iff. Qed.
+Print Assumptions C19_merge_error_raises_iff.
+
+Theorem C19_merge_error_spec : forall A (db : databox A) others, ND A db ->
+  (NoDup (all_keys A db others) -> d_merge A db others (MReport true) = Ok (db ++ concat others)) /\
+  (~ NoDup (all_keys A db others) -> d_merge A db others (MReport true) = Err 2%nat).
+Proof. exact merge_error_spec. Qed.
+Print Assumptions C19_merge_error_spec.
+
+(* merge is an in-place procedure: [merge_report_state critical db others] (model/Merge6.v, compared with the target
+   databox of the implementation after the call returned OR raised, on every run) is the target after the call and
+   whether a duplicate key was met.  The value / exception of d_merge is determined by the run of the loop to its end: *)
+Theorem C19_merge_report_run : forall A (db : databox A) others r,
+  d_merge A db others (MReport r)
+  = let '(d, dup) := merge_report_state A false db others in if r && dup then Err 2%nat else Ok d.
+Proof. exact merge_report_run. Qed.
+Print Assumptions C19_merge_report_run.
+
+(* error and critical meet a duplicate (raise) in exactly the same cases *)
+Theorem C19_merge_report_dup_iff : forall A c (db : databox A) others, ND A db ->
+  (snd (merge_report_state A c db others) = true <-> ~ NoDup (all_keys A db others)).
+Proof. exact merge_report_dup_iff. Qed.
+Print Assumptions C19_merge_report_dup_iff.
+
+(* the target after silent / warning / error -- ALSO when error raised (the stream raises after the loop): every
+   existing key keeps its item, every new key holds its first occurrence in the merged databoxes.  "A raising merge
+   changes nothing" is therefore NOT what the code does (refuted on an instance below): what holds is that no EXISTING
+   item is changed or removed *)
+Theorem C19_merge_error_state : forall A (db : databox A) others k,
+  dget A (fst (merge_report_state A false db others)) k
+  = match dget A db k with Some v => Some v | None => dget A (concat others) k end.
+Proof. exact merge_error_state. Qed.
+Print Assumptions C19_merge_error_state.
+
+(* the target after critical (raises at the first duplicate): the items met before the first duplicate were added *)
+Theorem C19_merge_critical_state : forall A (db : databox A) others,
+  fst (merge_report_state A true db others) = db ++ fresh_prefix A (names A db) (concat others).
+Proof. exact merge_critical_state. Qed.
+Print Assumptions C19_merge_critical_state.
+
+Theorem C19_merge_report_keeps_existing : forall A c (db : databox A) others k v,
+  dget A db k = Some v -> dget A (fst (merge_report_state A c db others)) k = Some v.
+Proof. exact merge_report_keeps_existing. Qed.
+Print Assumptions C19_merge_report_keeps_existing.
+
+(* non-vacuity, and the refutation of "nothing is changed when it raises": target {a}, merged {x, a, y} and {y, z} *)
+Theorem C19_merge_report_examples :
+  merge_report_state OZArith false Merge6Examples.T [Merge6Examples.B; Merge6Examples.C]
+  = ([("a"%string, Merge6Examples.sc 1); ("x"%string, Merge6Examples.sc 2); ("y"%string, Merge6Examples.sc 4);
+      ("z"%string, Merge6Examples.sc 6)], true)
+  /\ merge_report_state OZArith true Merge6Examples.T [Merge6Examples.B; Merge6Examples.C]
+     = ([("a"%string, Merge6Examples.sc 1); ("x"%string, Merge6Examples.sc 2)], true)
+  /\ d_merge OZArith Merge6Examples.T [Merge6Examples.B; Merge6Examples.C] (MReport true) = Err 2%nat
+  /\ (NoDup (all_keys OZArith Merge6Examples.T [Merge6Examples.C])
+      /\ d_merge OZArith Merge6Examples.T [Merge6Examples.C] (MReport true) = Ok (Merge6Examples.T ++ Merge6Examples.C)).
+Proof. exact (conj Merge6Examples.error_state (conj Merge6Examples.critical_state (conj Merge6Examples.error_raises Merge6Examples.no_duplicate))). Qed.
+Print Assumptions C19_merge_report_examples.
+
+
 (* a databox that is not the destination of any operation of a history keeps all its items, whatever is done to
    the other databoxes: the result of copy (a register of its own) and its source never influence each other.
    (The model has value semantics; that the implementation's databoxes do not share mutable items is checked by
@@ -381,6 +448,37 @@ Theorem C19_csv_slice_refuted :
 Proof. exact sliced_rows_refuted. Qed.
 Print Assumptions C19_csv_slice_refuted.
 
+
+(* ---- round 6: REPEATED periods in an explicit period list (span= / frequency_span=) ---- *)
+(* C19_csv_roundtrip, C19_csv_values_on_span and C19_csv_row_holds_values_at_its_period already hold for lists with
+   repeats (no NoDup premise on the periods).  Explicitly: the sheet holds one row per POSITION of the list, and two
+   positions holding the same period get identical rows ... *)
+Theorem C19_csv_rows_of_repeated_period : forall A fmt_period fmt_val rnd (o : wopts) total f ps
+  (its : list (string * (string * series A))) i j,
+  (i < length ps)%nat -> (j < length ps)%nat -> nth i ps 0 = nth j ps 0 ->
+  nth ((if w_desc o then 2 else 1) + i) (block_grid_src A fmt_period fmt_val rnd o total f ps its) []
+  = nth ((if w_desc o then 2 else 1) + j) (block_grid_src A fmt_period fmt_val rnd o total f ps its) [].
+Proof. exact block_rows_of_repeated_period. Qed.
+Print Assumptions C19_csv_rows_of_repeated_period.
+
+(* ... and the import (dated rows are stored by Series.set_data: the LAST row of a period wins) returns a series that
+   depends only on the SET of selected periods: repeats and order change nothing *)
+Theorem C19_csv_import_periods_as_set : forall A, lawful A -> is_miss A (miss A) = true ->
+  forall (rnd : car A -> car A) f ps ps' (s : series A), WF A s -> (forall t, In t ps <-> In t ps') ->
+  imp_series A rnd f ps s = imp_series A rnd f ps' s.
+Proof. exact imp_series_periods_as_set. Qed.
+Print Assumptions C19_csv_import_periods_as_set.
+
+Theorem C19_csv_import_repeats_dropped : forall A, lawful A -> is_miss A (miss A) = true ->
+  forall (rnd : car A -> car A) f ps (s : series A), WF A s ->
+  imp_series A rnd f ps s = imp_series A rnd f (nodup Z.eq_dec ps) s.
+Proof. exact imp_series_nodup. Qed.
+Print Assumptions C19_csv_import_repeats_dropped.
+
+Theorem C19_csv_repeated_period_example :
+  imp_series OZArith (fun x => x) 1 [10; 11; 10] s5 = imp_series OZArith (fun x => x) 1 [10; 11] s5 /\ ~ NoDup [10; 11; 10].
+Proof. exact Csv6Examples.repeated_period_same_series. Qed.
+Print Assumptions C19_csv_repeated_period_example.
 
 (* non-vacuity: a lawful carrier, a concrete sheet that round-trips, a concrete history *)
 Example C19_nonvacuous :
